@@ -44,6 +44,13 @@ structure St (α : Type) where
   atkType : Nat := 0
   atkDmgType : Nat := 0
 
+/-- adjustment a `HitStart` listener makes to the stats snapshots of one hit (the hit's own copies) -/
+structure HitAdj (α : Type) where
+  onlyTgt : Int       -- 0: on every hit of the attack; otherwise only on the hit against this defender
+  attDmgAdd : α       -- added to the attacker's all-damage bonus
+  attCritAdd : α      -- added to the attacker's crit chance
+  defTakenAdd : α     -- added to the defender's all-damage-taken
+
 structure AttackP (α : Type) where
   key : Int
   src : Int
@@ -58,6 +65,7 @@ structure AttackP (α : Type) where
   stanceDamage : α
   bbd : α            -- BreakBaseDamage[attacker level]
   draws : List α     -- one draw per hit that consults the generator
+  adj : Option (HitAdj α) := none
 
 /-- adjustment a `HealStart` listener makes (mutable event) -/
 structure HealAdj (α : Type) where
@@ -184,8 +192,25 @@ def statsOf (s : St α) (id : Int) : CStats α := (s.cs id).getD dfltStats
 
 def hitRatioOf (p : AttackP α) : α := if p.hitRatio ≤ 0 then 1 else p.hitRatio
 
+/-- does the listener adjust the hit against `tgt` -/
+def adjApplies (a : HitAdj α) (tgt : Int) : Bool := a.onlyTgt == 0 || a.onlyTgt == tgt
+
+/-- the attacker's stats as the hit against `tgt` sees them: a fresh snapshot per hit, plus what the
+hit listener added to *this* hit's snapshot -/
+def attackerFor (s : St α) (p : AttackP α) (tgt : Int) : CStats α :=
+  match p.adj with
+  | some a => if adjApplies a tgt then
+      { statsOf s p.src with allDmgPct := (statsOf s p.src).allDmgPct + a.attDmgAdd, critChance := (statsOf s p.src).critChance + a.attCritAdd }
+    else statsOf s p.src
+  | none => statsOf s p.src
+
+def defenderFor (s : St α) (p : AttackP α) (tgt : Int) : CStats α :=
+  match p.adj with
+  | some a => if adjApplies a tgt then { statsOf s tgt with allTaken := (statsOf s tgt).allTaken + a.defTakenAdd } else statsOf s tgt
+  | none => statsOf s tgt
+
 def hitFactors (s : St α) (p : AttackP α) (tgt : Int) (draw : α) : Factors α :=
-  factors (statsOf s p.src) (statsOf s tgt) (stanceOfU s tgt) p (hitRatioOf p) draw
+  factors (attackerFor s p tgt) (defenderFor s p tgt) (stanceOfU s tgt) p (hitRatioOf p) draw
 
 /-- damage that reaches HP after the shields absorbed their part -/
 def hitHP (s : St α) (p : AttackP α) (tgt : Int) (draw : α) : α :=
